@@ -227,3 +227,59 @@ Proof.
     reflexivity.
   - split; [reflexivity|]. split; [vm_compute; reflexivity|]. split; vm_compute; reflexivity.
 Qed.
+
+(** ------------------------------------------------------------------ start values over the whole int64 range
+    (F12: INT attribute values are read exactly, not through float64): two messages with one signed
+    64-bit signal each; the start values 2^63 - 1 and -(2^53 + 1) - neither is a float64 - arrive in the
+    database as written; the declared range is [MinInt64, MaxInt64] *)
+Definition ex64_sig (name : string) : ssignal :=
+  {| ss_name := txt name; ss_mux := MuxNone; ss_start := txt "0"; ss_size := txt "64";
+     ss_big_endian := false; ss_signed := true;
+     ss_factor := int_lit "1"; ss_offset := int_lit "0"; ss_min := int_lit "0"; ss_max := int_lit "0";
+     ss_unit := []; ss_receiver := txt "N"; ss_receivers := [] |}.
+
+Definition ex64_src : list sdef :=
+  [ SNodes [txt "N"];
+    SMessage (txt "1") (txt "M") (txt "8") (txt "N") [ex64_sig "S"];
+    SMessage (txt "2") (txt "L") (txt "8") (txt "N") [ex64_sig "T"];
+    SAttr AOSignal (txt "GenSigStartValue")
+          (ABInt false (Some (num true "9223372036854775808" None None, int_lit "9223372036854775807")));
+    SAttrValue (txt "GenSigStartValue") (ObjSignal (txt "1") (txt "S")) (AVInt (int_lit "9223372036854775807"));
+    SAttrValue (txt "GenSigStartValue") (ObjSignal (txt "2") (txt "T")) (AVInt (num true "9007199254740993" None None)) ].
+
+Definition ex64_text : bytes :=
+  txt ("BU_: N" ++ LF ++ "BO_ 1 M : 8 N" ++ LF ++ "SG_ S : 0 | 64 @ 1 - ( 1 , 0 ) [ 0 | 0 ] """" N" ++ LF
+       ++ "BO_ 2 L : 8 N" ++ LF ++ "SG_ T : 0 | 64 @ 1 - ( 1 , 0 ) [ 0 | 0 ] """" N" ++ LF
+       ++ "BA_DEF_ SG_ ""GenSigStartValue"" INT -9223372036854775808 9223372036854775807 ;" ++ LF
+       ++ "BA_ ""GenSigStartValue"" SG_ 1 S 9223372036854775807 ;" ++ LF
+       ++ "BA_ ""GenSigStartValue"" SG_ 2 T -9007199254740993 ;" ++ LF).
+
+Lemma ex64_src_text : print [] ex64_src = ex64_text.
+Proof. vm_compute. reflexivity. Qed.
+
+Lemma ex64_src_wf : wf_file ex64_src.
+Proof.
+  split; [|unfold ex64_src; cbn [sg_placed Printer.is_message is_signal]; repeat split; intros; try reflexivity; discriminate].
+  unfold ex64_src. cbn [wf_defs ctx_step app attr_body_type attr_body_enums].
+  unfold wf_sdef_ctx, wf_attr_value. cbn [wf_sdef wf_attr_body wf_range wf_obj].
+  wf1.
+Qed.
+
+Lemma ex64_src_class : in_class (elaborate [] ex64_src) = true.
+Proof. vm_compute. reflexivity. Qed.
+
+Lemma ex64_src_compiles : forall il id,
+  wf_file ex64_src /\ in_class (elaborate [] ex64_src) = true /\ print [] ex64_src = ex64_text /\
+  exists db, compile_text il id [] ex64_text = Some (db, []) /\
+    map (fun m => (msg_name m, map (fun s => (s_name s, s_length s, s_signed s, s_default s)) (msg_signals m))) (db_messages db)
+    = [(txt "M", [(txt "S", 64, true, 9223372036854775807)]); (txt "L", [(txt "T", 64, true, -9007199254740993)])]
+    /\ map (fun d => match d with DAttribute a => [(ad_min_int a, ad_max_int a)] | _ => [] end) (elaborate [] ex64_src)
+       = [[]; []; []; [(-9223372036854775808, 9223372036854775807)]; []; []].
+Proof.
+  intros il id. split; [exact ex64_src_wf|]. split; [exact ex64_src_class|]. split; [exact ex64_src_text|].
+  exists (sort_db (denoted_db [] (elaborate [] ex64_src))). split.
+  - rewrite <- ex64_src_text. rewrite (compile_text_eq il id [] [] ex64_src (Forall_nil _) ex64_src_wf ex64_src_class).
+    replace (spec_warnings (elaborate [] ex64_src)) with (@nil (warn_kind * position)) by (vm_compute; reflexivity).
+    reflexivity.
+  - split; vm_compute; reflexivity.
+Qed.
